@@ -279,7 +279,10 @@ func init() {
 			var a c20TreeArgs
 			json.Unmarshal(raw, &a)
 			d := c20Dict(a.Dict)
-			loader.VerifSetNameFromKey(d)
+			if err := loader.VerifSetNameFromKeyErr(d); err != nil {
+				// since the C01 repair a section / resource of the wrong kind is an error, no longer a panic
+				return map[string]any{"err": "setNameFromKey"}
+			}
 			return map[string]any{"ok": core.EncodeVal(d)}
 		},
 		DriverOp: "c20.setName",
